@@ -19,15 +19,32 @@ import (
 type hookSub struct {
 	expiry  chan int64 // offset of the message the feeder was blocked on when it gave up
 	handoff chan int64
+	// pipeline trace (hooks of hooks/consumer_pipeline.patch), in the order the events happened
+	mu        sync.Mutex
+	recording bool
+	events    []Event
+}
+
+// Event is one hook event of the consumer pipeline.
+type Event struct {
+	Kind string
+	P    int32
+	N    int
+	Off  int64
+	FS   int32
+	Resp *sarama.FetchResponse
+	Err  error
 }
 
 var (
 	hookMu      sync.Mutex
-	hookSubs    = map[string]*hookSub{}
+	hookSubs    = map[string]*hookSub{} // by topic and by broker address
 	hookOnce    sync.Once
 	stalledRuns int32
 	// HooksSeen is set once any feeder hook fired: the tree under test has the call sites.
 	HooksSeen int32
+	// PipelineHooksSeen: the tree has the bc.* / pc.* call sites.
+	PipelineHooksSeen int32
 )
 
 // EscapedPanics counts panics that reached sarama.PanicHandler (a goroutine of the library died).
@@ -37,28 +54,75 @@ func installObserver() {
 	hookOnce.Do(func() {
 		sarama.PanicHandler = func(interface{}) { atomic.AddInt32(&EscapedPanics, 1) }
 		sarama.VerifSetObserver(func(kind string, args ...interface{}) {
-			if kind != "feeder.expiry" && kind != "feeder.handoff" {
+			if !strings.HasPrefix(kind, "feeder.") && !strings.HasPrefix(kind, "bc.") && !strings.HasPrefix(kind, "pc.") {
 				return
 			}
-			atomic.StoreInt32(&HooksSeen, 1)
-			if len(args) < 3 {
+			if len(args) < 1 {
 				return
 			}
-			topic, _ := args[0].(string)
-			off, _ := args[2].(int64)
+			key, _ := args[0].(string) // topic (feeder.*, pc.*) or broker address (bc.*)
 			hookMu.Lock()
-			s := hookSubs[topic]
+			s := hookSubs[key]
 			hookMu.Unlock()
 			if s == nil {
 				return
 			}
-			ch := s.expiry
-			if kind == "feeder.handoff" {
-				ch = s.handoff
+			if kind == "feeder.expiry" || kind == "feeder.handoff" {
+				atomic.StoreInt32(&HooksSeen, 1)
+			} else {
+				atomic.StoreInt32(&PipelineHooksSeen, 1)
 			}
-			select {
-			case ch <- off:
-			default:
+			ev := Event{Kind: kind}
+			i32 := func(i int) int32 {
+				if i < len(args) {
+					v, _ := args[i].(int32)
+					return v
+				}
+				return 0
+			}
+			i64 := func(i int) int64 {
+				if i < len(args) {
+					v, _ := args[i].(int64)
+					return v
+				}
+				return 0
+			}
+			switch kind {
+			case "feeder.handoff", "feeder.expiry", "pc.start":
+				ev.P, ev.Off = i32(1), i64(2)
+			case "feeder.parsed":
+				ev.P, ev.Off, ev.FS = i32(1), i64(3), i32(4)
+				if len(args) > 2 {
+					ev.N, _ = args[2].(int)
+				}
+			case "feeder.done", "feeder.resubscribe", "pc.dispatched", "pc.dispatch.failed":
+				ev.P = i32(1)
+			case "bc.subscribe":
+				ev.P = i32(2)
+			case "bc.verdict":
+				ev.P = i32(2)
+				if len(args) > 3 {
+					ev.Err, _ = args[3].(error)
+				}
+			case "bc.fetched":
+				if len(args) > 1 {
+					ev.Resp, _ = args[1].(*sarama.FetchResponse)
+				}
+			}
+			s.mu.Lock()
+			if s.recording {
+				s.events = append(s.events, ev)
+			}
+			s.mu.Unlock()
+			if kind == "feeder.expiry" || kind == "feeder.handoff" {
+				ch := s.expiry
+				if kind == "feeder.handoff" {
+					ch = s.handoff
+				}
+				select {
+				case ch <- ev.Off:
+				default:
+				}
 			}
 		})
 	})
@@ -132,6 +196,8 @@ type E2EResult struct {
 	ExtraOK        bool
 	Fetches        int
 	CloseHung      bool
+	Events         []Event // pipeline hook events of this consumer, in order (empty on a tree without the hooks)
+	ExtraDelivered map[int32][]*sarama.ConsumerMessage
 	SiblingStalled bool      // a further partition on the same broker stopped receiving although nothing happened to it
 	Resps          [][]int64 // offsets parseResponse must have produced from each data response served for partition 0
 }
@@ -170,14 +236,15 @@ func RunE2E(seed int64, sc E2EScenario) E2EResult {
 	installObserver()
 	rng := rand.New(rand.NewSource(seed))
 	res := E2EResult{Started: -1}
-	sub := &hookSub{expiry: make(chan int64, 64), handoff: make(chan int64, 1024)}
-	hookMu.Lock()
-	hookSubs[sc.Topic] = sub
-	hookMu.Unlock()
-	defer func() { hookMu.Lock(); delete(hookSubs, sc.Topic); hookMu.Unlock() }()
-
+	sub := &hookSub{expiry: make(chan int64, 64), handoff: make(chan int64, 1024), recording: true}
 	broker := sarama.NewMockBroker(quiet{}, 1)
 	defer broker.Close()
+	hookMu.Lock()
+	hookSubs[sc.Topic] = sub
+	hookSubs[broker.Addr()] = sub
+	hookMu.Unlock()
+	defer func() { hookMu.Lock(); delete(hookSubs, sc.Topic); delete(hookSubs, broker.Addr()); hookMu.Unlock() }()
+
 	l := sc.Gen.Log
 	var mu sync.Mutex
 	metaFailLeft := 0
@@ -324,6 +391,8 @@ func RunE2E(seed int64, sc E2EScenario) E2EResult {
 	extraOK := int32(1)
 	var extraGot, extraDone int64 // messages received by / number of finished further partitions
 	var extras []sarama.PartitionConsumer
+	var xmu sync.Mutex
+	res.ExtraDelivered = map[int32][]*sarama.ConsumerMessage{}
 	for p := 1; p <= sc.Extra; p++ {
 		xp, err := master.ConsumePartition(sc.Topic, int32(p), sarama.OffsetOldest)
 		if err != nil {
@@ -348,6 +417,9 @@ func RunE2E(seed int64, sc E2EScenario) E2EResult {
 				if i >= len(want) || !SameAsRef(m, want[i]) {
 					atomic.StoreInt32(&extraOK, 0)
 				}
+				xmu.Lock()
+				res.ExtraDelivered[m.Partition] = append(res.ExtraDelivered[m.Partition], m)
+				xmu.Unlock()
 				i++
 				atomic.AddInt64(&extraGot, 1)
 				if i == len(want) {
@@ -458,6 +530,11 @@ loop:
 			}
 		}
 	}
+	// the pipeline trace ends here: shutdown is not part of it
+	sub.mu.Lock()
+	sub.recording = false
+	res.Events = sub.events
+	sub.mu.Unlock()
 	// shut down; a consumer whose goroutines died would never close its channels: bounded waits (C12 owns shutdown)
 	pc.AsyncClose()
 	deadline := time.After(3 * time.Second)
